@@ -243,10 +243,114 @@ def worker(block):
         for (a, b) in pairs(3):
             _one(res, 3, [(0, 1), (1, 2), (2, 0), (a, b)], {0}, set(), False, "bad-internal", None,
                  only_edge=(a, b))
+        inheritance_and_enum_specials(res)
         res.stats["states"] += 1
         res.samples.append({"n": 3, "edges": [[0, 1], [1, 1]], "initial": [0], "final": [2],
                             "strict": False, "expected": "reject (unreachable states)"})
     return res
+
+
+def class_statement(fn):
+    """Runs a class statement given as a function; returns ('accept', warnings) | ('reject', e)
+    | ('error', e)."""
+    from statemachine.exceptions import InvalidDefinition
+    with warnings.catch_warnings(record=True) as wl:
+        warnings.simplefilter("always")
+        try:
+            cls = fn()
+        except InvalidDefinition as e:
+            return ("reject", e, None)
+        except Exception as e:   # noqa: BLE001
+            return ("error", e, None)
+    return ("accept", [str(w.message) for w in wl if issubclass(w.category, UserWarning)], cls)
+
+
+def inheritance_and_enum_specials(res):
+    """Subclass statements are class statements too, and so are machines whose states come from
+    States.from_enum: the same acceptance rules apply."""
+    import enum
+
+    from statemachine import State, StateMachine
+    from statemachine.factory import StateMachineMetaclass
+    from statemachine.states import States
+
+    def base(final=True, trap=False):
+        a, b, f = State(initial=True), State(), State(final=final)
+        ns = {"a": a, "b": b, "f": f, "go": a.to(b), "done": b.to(f)}
+        if not final and not trap:
+            ns["back"] = f.to(a)
+        with warnings.catch_warnings():
+            warnings.simplefilter("ignore")
+            return StateMachineMetaclass("B9", (StateMachine,), ns)
+
+    cases = []
+    # (label, thunk, expected verdict, expected warning substring or None)
+    for strict in (False, True):
+        kw = {"strict_states": True} if strict else {}
+
+        def sub_leaves_final(kw=kw):
+            B = base()
+            return StateMachineMetaclass("S9", (B,), {"go": B.f.to(B.a)}, **kw)
+        cases.append((f"subclass adds a transition leaving the inherited final state under an "
+                      f"inherited event name (strict={strict})", sub_leaves_final, "reject", None))
+
+        def sub_new_event_leaves_final(kw=kw):
+            B = base()
+            return StateMachineMetaclass("S9", (B,), {"reopen": B.f.to(B.a)}, **kw)
+        cases.append((f"subclass adds a new event leaving the inherited final state "
+                      f"(strict={strict})", sub_new_event_leaves_final, "reject", None))
+
+        def sub_unreachable(kw=kw):
+            B = base()
+            return StateMachineMetaclass("S9", (B,), {"z": State()}, **kw)
+        cases.append((f"subclass adds an unreachable state (strict={strict})", sub_unreachable,
+                      "reject", None))
+
+        def sub_plain_of_trap(kw=kw):
+            B = base(final=False, trap=True)       # f is a non-final state without exit
+            return StateMachineMetaclass("S9", (B,), {}, **kw)
+        cases.append((f"plain subclass of a machine with a trap state (strict={strict})",
+                      sub_plain_of_trap, "reject" if strict else "accept",
+                      None if strict else "no outgoing transition"))
+
+        def sub_ok(kw=kw):
+            B = base()
+            return StateMachineMetaclass("S9", (B,), {}, **kw)
+        cases.append((f"plain subclass of a well-formed machine (strict={strict})", sub_ok,
+                      "accept", None))
+
+    class E(enum.IntEnum):
+        a = 1
+        b = 2
+        f = 0          # the final state's value is falsy
+
+    for final_arg, label in ((E.f, "final=<member with value 0>"), ([E.f], "final=[member]")):
+        for extra in (False, True):
+            def from_enum(final_arg=final_arg, extra=extra):
+                st = States.from_enum(E, initial=E.a, final=final_arg)
+                ns = {"st": st, "go": st.a.to(st.b), "done": st.b.to(st.f)}
+                if extra:
+                    ns["again"] = st.f.to(st.a)        # leaves the final state
+                return StateMachineMetaclass("E9", (StateMachine,), ns, strict_states=True)
+            cases.append((f"States.from_enum(IntEnum, {label})"
+                          f"{' + a transition leaving the final state' if extra else ''}",
+                          from_enum, "reject" if extra else "accept", None))
+
+    for (label, fn, want, warn) in cases:
+        res.stats["evaluations"] += 1
+        got = class_statement(fn)
+        msg = None
+        if got[0] != want:
+            msg = (f"{label}: expected {want}, the class statement "
+                   f"{'was accepted' if got[0] == 'accept' else 'raised ' + repr(got[1])}")
+        elif want == "accept" and warn and not any(warn in w for w in got[1]):
+            msg = f"{label}: expected a warning containing {warn!r}, got {got[1]}"
+        elif want == "accept" and "from_enum" in label and not got[2].f.final:
+            msg = f"{label}: the state declared final is not final"
+        if msg:
+            res.violation({"category": "special", "case": label[:40]}, {"special": label}, msg)
+        else:
+            res.hist["special:" + want] += 1
 
 
 def _one(res, n, edges, initials, finals, strict, variant, any_target, only_edge=None):
@@ -324,6 +428,12 @@ def run(tier, seed):
 
 def replay(sc):
     res = BlockResult()
+    if "special" in sc:
+        inheritance_and_enum_specials(res)
+        for v in res.violations:
+            if v["scenario"] == sc:
+                return v["message"]
+        return None
     if "bad_internal" in sc:
         _one(res, 3, [], {0}, set(), False, "bad-internal", None, only_edge=tuple(sc["bad_internal"]))
     else:
